@@ -260,7 +260,9 @@ def exhaustive_skeletons(max_nodes: int, double_wrap_upto: int = 3, refs_upto: i
 # ------------------------------------------------------------------ decoration with real recipe objects
 
 ALPHABET = ["a", "b", "Z", " ", " ", "<", ">", "&", '"', "'", "\\", "{", "}", "%", "#", "/", "-", "_", ".", "*",
-            "é", "ß", "中", "\U0001F35E", "​", "́", "<b>", "&amp;", "</td>", "1", "0"]
+            "é", "ß", "中", "\U0001F35E", "​", "́", "<b>", "&amp;", "</td>", "1", "0",
+            # Unicode line boundaries (str.splitlines splits at them; HTML does not treat them as white space), TAB, LF
+            "\u2028", "\u2029", "\x85", "\x0b", "\x1c", "\x1d", "\x1e", "\n", "\t"]
 UNITS = [None, None, "g", "kg", "tsp", "Cups", "ml", "lb", "sack", "<i>", "fl&oz", "TBSP", "pint", "Mug", "Handfuls", "big Sprigs", "É-cup"]
 
 
